@@ -769,32 +769,72 @@ class SecondTouchSuite(StartStopSuite):
             si = rng.choice([0, 0, 1, -1, 2, 5, -4])
             bob = rng.choice(self.CALLDEFS[stage])
             single = rng.choice(self.CALLDEFS[stage])
+            # (up-down-in: the method starts by itself, nobody says Go - neither in the first touch nor after a new Look to)
+            udi = rng.random() < 0.35
             g = rng.randint(0, 2)
-            pl = [(g, rng.randrange(n), False, "Go")]
+            pl = [] if udi else [(g, rng.randrange(n), False, "Go")]
             r1 = g + 2 + rng.randint(0, L + 2)
             c1 = rng.choice(["Bob", "Single"])
             pl.append((r1, rng.randrange(n), rng.random() < 0.2, c1))
             t = r1 + rng.randint(0, L + 1)
             relook = None
-            if rng.random() < 0.7:
+            if rng.random() < (0.3 if udi else 0.7):
                 pl.append((t, rng.randrange(n), False, "That's all"))
                 g2 = t + rng.randint(2, 5)
+                pl.append((g2, rng.randrange(n), False, "Go"))
             else:
                 relook = t if t % 2 == 1 else t + 1
                 g2 = relook + 1 + rng.randint(0, 2)
-            pl.append((g2, rng.randrange(n), False, "Go"))
+                if not udi:
+                    pl.append((g2, rng.randrange(n), False, "Go"))
             if rng.random() < 0.6:
                 pl.append((g2 + 2 + rng.randint(0, L), rng.randrange(n), False, rng.choice(["Bob", "Single"])))
             nrows = g2 + 2 * L + 6
-            case = self.make(rng, stage=stage, n=n, start_index=si, udi=False, sar=False, placements=pl, nrows=nrows,
+            case = self.make(rng, stage=stage, n=n, start_index=si, udi=udi, sar=False, placements=pl, nrows=nrows,
                              method=method, relook_row=relook)
             case["gen"]["bob"], case["gen"]["single"] = bob[0], single[0]
             case["oracle"]["defs"] = {"bob": None if bob[1] is None else {str(k): v for k, v in bob[1].items()},
                                       "single": None if single[1] is None else {str(k): v for k, v in single[1].items()}}
             yield case
+        for _ in range(20 if tier == "quick" else 200):
+            yield self.rounds_midlead(rng)
+
+    def rounds_midlead(self, rng):
+        """Plain Bob Minor from a start row chosen so that ROUNDS comes up as a row of the method in the middle of a
+        lead; somebody says Go (again) while that row is being rung.  Go during the method means nothing."""
+        method = "x16x16x16,12"
+        stage, expanded = self.METHODS[method]
+        n = stage + rng.choice([0, 1])
+        si = rng.choice([0, 0, 2, -4])
+        k = rng.choice([3, 4, 5, 7, 9, 14, 17])          # rounds is the k-th method row (1-based), never at a lead end
+        src = list(range(stage))
+        for i in range(k):
+            c = gens.textbook_change(stage, expanded[(i + si) % len(expanded)])
+            src = [src[j] for j in c]
+        start = [0] * stage
+        for i in range(stage):
+            start[src[i]] = i + 1                        # after k changes the bell in place src[i] is in place i
+        custom = "".join(gens.BELL_NAMES[b - 1] for b in start)
+        g = rng.randint(0, 1)
+        m = g + 1 if ((g + 1) % 2 == 0) == (si % 2 == 0) else g + 2
+        pl = [(g, rng.randrange(n), False, "Go"), (m + k - 1, rng.randrange(n), rng.random() < 0.2, "Go")]
+        case = self.make(rng, stage=stage, n=n, start_index=si, udi=False, sar=False, placements=pl, nrows=m + k + 8,
+                         method=method, custom=custom)
+        case["oracle"]["defs"] = {"bob": None, "single": None}
+        return case
+
+    def oracle_C06(self, case, out):
+        if case["gen"]["method"] not in ("x1x1,2", "3.1", "3.1.5"):
+            return None if case["gen"].get("custom") is None else self._check_custom_go(case, out)
+        return StartStopSuite.oracle_C06(self, case, out)
+
+    def _check_custom_go(self, case, out):
+        """the rounds-mid-lead sessions: the second Go must change nothing, i.e. the method simply carries on"""
+        msg = self.oracle_C03(case, out)
+        return msg and "a Go during the method restarted it: " + msg
 
     def oracle_C05(self, case, out):
-        if "trace" not in out:
+        if "trace" not in out or case["gen"].get("custom") is not None:
             return None
         orc = case["oracle"]
         n = orc["n"]
@@ -818,7 +858,7 @@ class SecondTouchSuite(StartStopSuite):
             touches = [(got, calls)]
         for ti, (rows, cs) in enumerate(touches):
             ctl = [(r, c) for (r, c) in cs if c not in ("Bob", "Single")]
-            kinds = touch_spec(len(rows), si % 2 == 0, False, False, ctl, lambda kd: False)
+            kinds = touch_spec(len(rows), si % 2 == 0, case["udi"], False, ctl, lambda kd: False)
             if kinds is None:
                 return None
             # (is_rounds_row is only consulted for That's all: "rounds came up" - answered below from the rows themselves)
@@ -1434,6 +1474,50 @@ def wait_session(rng, tier):
             "events": sorted_events(evs), "oracle": {"humans": sorted(humans), "n": n}}
 
 
+def wait_session_two(rng):
+    """Two touches in waiting mode.  After the first has stood a human pulls one more (stray) blow, the bells are set
+    at hand again, and in the second touch that same human is seconds late at the opening handstroke."""
+    n = rng.choice([5, 6, 8])
+    spec = {"kind": "plain_hunt", "stage": n, "custom": None}
+    humans = set(rng.sample(range(2, n + 1), rng.randint(1, n - 2)))
+    peal = rng.choice([150, 180])
+    iv = blow_interval(peal, n)
+    look1 = Fraction(211, 1000)
+    evs = [ev(0, "global", [True] * n), ev(Fraction(3, 100), "user_entered", 11, "Alice")]
+    for b in sorted(humans):
+        evs.append(ev(Fraction(5, 100) + Fraction(b, 10000), "assign", b, 11))
+    evs.append(ev(look1, "call", "Look to"))
+    rows = probe_rows(spec, n, 4)
+    for r, row in enumerate(rows):
+        for p, bell in enumerate(row):
+            if bell in humans:
+                evs.append(ev(look1 + 3 + iv * (r * n + p + r // 2) - Fraction(5, 1000) + Fraction(rng.randint(1, 999), 10 ** 7), "ring", bell))
+    evs.append(ev(look1 + 3 + iv * (2 * n + 2), "call", "Stand next"))
+    t_end = look1 + 3 + iv * (4 * n + 2)
+    stray = rng.choice(sorted(humans))
+    strays = [stray] if rng.random() < 0.7 else sorted(humans)
+    for k, b in enumerate(strays):
+        evs.append(ev(t_end + Fraction(1, 2) + Fraction(k, 50), "ring", b))
+    evs.append(ev(t_end + 1, "global", [True] * n))
+    look2 = t_end + Fraction(3, 2) + Fraction(1, 1000)
+    evs.append(ev(look2, "call", "Look to"))
+    late = Fraction(rng.choice([700, 2500, 6000]), 1000)
+    shift = Fraction(0)
+    for r, row in enumerate(probe_rows(spec, n, 3)):
+        for p, bell in enumerate(row):
+            if bell in humans:
+                t = look2 + 3 + shift + iv * (r * n + p + r // 2) - Fraction(5, 1000)
+                if r == 0 and bell == stray:
+                    t += late
+                    shift += late
+                evs.append(ev(t + Fraction(rng.randint(1, 999), 10 ** 7), "ring", bell))
+    horizon = look2 + 3 + shift + iv * (3 * n + 1) + Fraction(1, 3000)
+    rh = {"kind": "wait", "inertia": 1.0, "peal_speed": peal, "gap": 1.0, "max": 15, "initial_inertia": 1.0}
+    return {"gen": spec, "udi": True, "stop_at_rounds": False, "call_comps": True, "name": None, "instance": None,
+            "rhythm": rh, "delta": fstr(rng.choice([0, Fraction(1, 1000)])), "horizon": fstr(horizon),
+            "events": sorted_events(evs), "oracle": {"humans": sorted(humans), "n": n, "look2": fstr(look2)}}
+
+
 class WaitSuite(SystemSuite):
     name = "wait_for_humans"
     fuel = 80000
@@ -1442,6 +1526,8 @@ class WaitSuite(SystemSuite):
     def scenarios(self, rng, tier):
         for _ in range(200 if tier == "quick" else 2000):
             yield wait_session(rng, tier)
+        for _ in range(30 if tier == "quick" else 300):
+            yield wait_session_two(rng)
 
     def to_coq(self, case, out):
         c = {k: v for k, v in case.items() if k != "oracle"}
@@ -1455,13 +1541,25 @@ class WaitSuite(SystemSuite):
         if "trace" not in out:
             return None
         humans = set(case["oracle"]["humans"])
-        rings = sorted((Fraction(t), e[1]) for t, e in case["events"] if e[0] == "ring")
+        all_rings = sorted((Fraction(t), e[1]) for t, e in case["events"] if e[0] == "ring")
+        look2 = Fraction(case["oracle"]["look2"]) if case["oracle"].get("look2") else None
+        for (lo, hi) in ([(Fraction(-1), look2), (look2, Fraction(10 ** 12))] if look2 is not None else [(Fraction(-1), Fraction(10 ** 12))]):
+            msg = self._never_ahead(out, humans, [(t, b) for (t, b) in all_rings if lo <= t < hi], lo, hi)
+            if msg:
+                return ("second touch: " if look2 is not None and lo == look2 else "") + msg
+        return None
+
+    @staticmethod
+    def _never_ahead(out, humans, rings, lo, hi):
+        """strike counts within one touch (its rows are numbered from 0 and only blows struck in it count)"""
         place_of = {}
         for it in out["trace"]:
-            if it[1] == "r_wait":
+            if it[1] == "r_wait" and lo <= Fraction(it[0]) < hi:
                 place_of[(it[4], it[3])] = it[5]          # (row, bell) -> place
         cur = None
         for it in out["trace"]:
+            if not lo <= Fraction(it[0]) < hi:
+                continue
             if it[1] == "r_wait":
                 cur = (it[4], it[5])
             elif it[1] == "bell" and cur is not None:
